@@ -100,7 +100,8 @@ class C12(Check):
                 continue
             out.append({"kind": kind, "cls": cls, "target": target, "children": children, "clear": clear,
                         "geom": {"n": 4, "g": [1, -2, 3, 0, 5, -4, 2, 7, 1, 3]}, "vals": [3, None, -2, 8, 1, 4],
-                        "edits": ["values_rw", "rename"] if target != "same" else ["metadata", "values_rw"]})
+                        "edits": (["dh_remove", "rename"] if kind == "dhgroup" else
+                                  ["values_rw", "rename"] if target != "same" else ["metadata", "values_rw"])})
             if target == "ws2" and children and not clear:
                 # copying OUT of a workspace opened read-only (the source must not be written to)
                 out.append({**out[-1], "source_mode": "r"})
@@ -112,7 +113,7 @@ class C12(Check):
             "children": st.booleans(), "clear": st.booleans(),
             "geom": st.fixed_dictionaries({"n": st.integers(2, 6), "g": st.lists(st.integers(-9, 9), min_size=3, max_size=10)}),
             "vals": st.lists(st.one_of(st.integers(-20, 20), st.none()), min_size=0, max_size=10),
-            "edits": st.lists(st.sampled_from(["values", "values_rw", "vertices", "metadata", "rename", "pg"]), max_size=3),
+            "edits": st.lists(st.sampled_from(["values", "values_rw", "vertices", "metadata", "rename", "pg", "dh_remove"]), max_size=3),
             "source_mode": st.sampled_from(["r+", "r+", "r"]),
         }).map(lambda d: {**{k: v for k, v in d.items() if k != "kind_cls"}, "kind": d["kind_cls"][0], "cls": d["kind_cls"][1]})
 
@@ -244,7 +245,21 @@ class C12(Check):
                 else:
                     dest = ContainerGroup.create(ws1, name="dest")
             src_uid, dest_uid = subject.uid, dest.uid
-            before = self.snap(subject, p)
+            if kind == "dhgroup":
+                # expected content from what was written: the source is NOT read before the copy and the edits,
+                # so a stale in-memory index cannot hide behind cached values
+                node = snap_entity(subject)
+                for key in ("parent", "children", "n_child_entries", "pgs"):
+                    node.pop(key, None)
+                before = {"node": node, "holes": [
+                    {"name": f"h{k}", "collar": canon_value(np.asarray((float(k), 0.0, 0.0), dtype=[("x", float), ("y", float), ("z", float)])),
+                     "surveys": canon_value(np.asarray([[0.0, 0.0, -90.0], [10.0, 45.0, -80.0]])),
+                     "data": {"DEPTH": canon_value(np.asarray([0.0, 1.0, 2.0])), "FROM": canon_value(np.asarray([0.0, 1.0])),
+                              "TO": canon_value(np.asarray([1.0, 2.5])), "a": canon_value(np.asarray([1.0 + k, 2.0, np.nan])),
+                              "b": canon_value(np.asarray([5 + k, 6], dtype="int32"))},
+                     "pgs": ["Interval_0", "depth_0"]} for k in range(2)]}
+            else:
+                before = self.snap(subject, p)
             src_uids = {str(subject.uid)} | ({str(c.uid) for c in self.walk(subject)} if kind != "dhgroup" else set())
             raw_before = {k: v for k, v in node_digests(rawsnap(ws1.geoh5)).items() if k[1].strip("{}") in src_uids}
             kwargs = {"parent": dest, "clear_cache": p["clear"]}
@@ -423,6 +438,17 @@ class C12(Check):
                 arr = target.values  # read, modify in place, assign back: the usual user pattern
                 arr[0] = "zz" if arr.dtype.kind == "U" else (arr[0] + 3 if arr[0] == arr[0] else 1.0)
                 target.values = arr
+                return True
+            if edit == "dh_remove":
+                if p["kind"] != "dhgroup" or not p["children"]:
+                    return None
+                holes = [c for c in new.children if hasattr(c, "surveys")]
+                if not holes:
+                    return None
+                data = holes[0].get_data("a")
+                if not data:
+                    return None
+                new.workspace.remove_entity(data[0])
                 return True
             if edit == "pg":
                 pgs = getattr(new, "property_groups", None)
